@@ -220,19 +220,30 @@ type Outcome struct {
 }
 
 type OutEntry struct {
-	T string  `json:"t"`
-	F string  `json:"f"`
-	O Outcome `json:"o"`
+	T   string  `json:"t"`
+	F   string  `json:"f"`
+	Src string  `json:"src"` // "*" or "" = any source, otherwise the source tag
+	O   Outcome `json:"o"`
 }
 
 // Call is one resolver invocation as logged by harness resolvers / predicted by the spec.
 type Call struct {
-	P    []string `json:"p"`
-	Pt   string   `json:"pt"`
-	F    string   `json:"f"`
-	Src  string   `json:"src"`
-	Args []NV     `json:"args"`
-	Occ  []int    `json:"occ"`
+	P     []string `json:"p"`
+	Pt    string   `json:"pt"`
+	F     string   `json:"f"`
+	Src   string   `json:"src"`
+	Args  []NV     `json:"args"`
+	Occ   []int    `json:"occ"`
+	Rt    *TypeRef `json:"rt,omitempty"`   // declared return type
+	Info  []string `json:"info,omitempty"` // harness-side complaints about ResolveInfo/context
+	RtStr string   `json:"-"`              // observed: printed Info.ReturnType
+	VV    string   `json:"-"`              // observed: canonical Info.VariableValues
+}
+
+// TCall is one type-resolver invocation.
+type TCall struct {
+	P []string `json:"p"`
+	V string   `json:"v"`
 }
 
 func (c Call) Key() string {
@@ -246,5 +257,8 @@ type Resp struct {
 	Unspec bool       `json:"unspec"`
 	Errs   [][]string `json:"errs"`
 	Opt    [][]string `json:"opt"`
+	All    [][]string `json:"all"`
 	Calls  []Call     `json:"calls"`
+	TCalls []TCall    `json:"tcalls"`
+	VVals  []NV       `json:"vvals"`
 }
